@@ -313,6 +313,11 @@ def eval_maxsize(case):
 def eval_sensitivity(case):
     """non-truncating hasher: flipping first / middle / last byte changes the verdict"""
     name, n = case["hasher"], case["n"]
+    backend = case.get("backend")
+    if backend is not None:
+        # the same demand under a selectable backend other than the default one (the built-in code of the crypt family)
+        with use_backend(name, backend):
+            return [(k.replace("|sensitivity:", f"|sensitivity:{backend}:"), d) for k, d in eval_sensitivity(dict(case, backend=None))]
     H = HS.handler(name)
     kw = cheap(name)
     ctxs = HS.ctx_grid(name)[0]
@@ -512,6 +517,9 @@ def run(ctx):
             if name in ("bigcrypt", "bsdi_crypt", "ldap_bsdi_crypt", "sun_md5_crypt") and n > 300 and ctx.quick:
                 continue
             cases.append({"part": "sensitivity", "hasher": name, "n": n, "seed": ctx.seed})
+            if getattr(H, "backends", None) and HS.base_name(name) not in ("bcrypt", "bcrypt_sha256", "scrypt") and n <= 300:
+                for b in backends_of(name)[1:]:
+                    cases.append({"part": "sensitivity", "hasher": name, "n": n, "seed": ctx.seed, "backend": b})
     # ---- part nul
     for name in nul_hashers():
         for backend in backends_of(name):
